@@ -339,6 +339,15 @@ func isDefault(expr Expression) bool {
 	return ok
 }
 
+// isIntLiteral reports whether expr is an integer literal. As an integer
+// literal followed by a dot is read as a floating-point literal, an integer
+// literal that is the operand of a selector or a type assertion, or the last
+// argument of a variadic call, must be surrounded by parenthesis.
+func isIntLiteral(expr Expression) bool {
+	lit, ok := expr.(*BasicLiteral)
+	return ok && lit.Type == IntLiteral
+}
+
 // Cut indicates, in a [Text] node, how many bytes should be cut from the left
 // and the right of the text before rendering the [Text] node.
 type Cut struct {
@@ -574,7 +583,11 @@ func (n *Call) String() string {
 		if i > 0 {
 			s += ", "
 		}
-		s += arg.String()
+		if n.IsVariadic && i == len(n.Args)-1 && isIntLiteral(arg) {
+			s += "(" + arg.String() + ")"
+		} else {
+			s += arg.String()
+		}
 	}
 	if n.IsVariadic {
 		s += "..."
@@ -1263,6 +1276,9 @@ func NewSelector(pos *Position, expr Expression, ident string) *Selector {
 
 // String returns the string representation of n.
 func (n *Selector) String() string {
+	if isIntLiteral(n.Expr) {
+		return "(" + n.Expr.String() + ")." + n.Ident
+	}
 	return n.Expr.String() + "." + n.Ident
 }
 
@@ -1468,10 +1484,14 @@ func NewTypeAssertion(pos *Position, expr Expression, typ Expression) *TypeAsser
 
 // String returns the string representation of n.
 func (n *TypeAssertion) String() string {
-	if n.Type == nil {
-		return operandString(n.Expr) + ".(type)"
+	s := operandString(n.Expr)
+	if isIntLiteral(n.Expr) {
+		s = "(" + s + ")"
 	}
-	return operandString(n.Expr) + ".(" + n.Type.String() + ")"
+	if n.Type == nil {
+		return s + ".(type)"
+	}
+	return s + ".(" + n.Type.String() + ")"
 }
 
 // TypeDeclaration node represents a type declaration, that is an alias
